@@ -342,7 +342,13 @@ META = {
                 "all 16 / 8 flag combinations x wsconst sets, comparing stdout and exit status with the model and with a per-line "
                 "library pipeline in the harness; evaluate's P/R/F1 are compared as text against the same f64 expressions. "
                 "The floats of evaluate are modelled exactly (VModel/F64Arith.lean: correctly rounded conversion, product, sum and quotient on the binary64 model): C20_eval_metrics_nan, _range, _exact_ratio, "
-                "C20_eval_f1_symmetric, C20_eval_f1_between (with a proved counterexample to min <= F1 <= max), and compared bit for bit with what the real tool prints on every CE case.",
+                "C20_eval_f1_symmetric, C20_eval_f1_between (with a proved counterexample to min <= F1 <= max), and compared bit for bit with what the real tool prints on every CE case. "
+                "The decimal TEXT of the three numbers is inside the model too (VModel/F64Fmt.lean: Rust's shortest round-trip Display for f64 as an exact search over the rounding interval, "
+                "the complete report of the tool): the printed digits read back to the printed double (C20_eval_display_roundtrip), a decimal reads back as a double exactly when it lies in its "
+                "rounding interval (C20_eval_display_interval_iff), different doubles print different strings (C20_eval_display_text_injective), no shorter digit string reads back to the same double "
+                "if the search ended within its fuel (C20_eval_display_shortest_partial; '17 digits always suffice' is the missing lemma), the text of a value in [0,1] is 0, 1 or 0.d…d (C20_eval_display_shape, "
+                "C20_eval_report_shape); the tool's i32 counters cannot overflow below 2^31 evaluated characters (C20_eval_char_counts_bounded, C20_eval_word_counts_bounded, C20_eval_counts_i32). "
+                "Tie: every CE case compares the printed text with the model's, and family FD runs the model's Display against the standard library on about 11 000 bit patterns per run.",
         "design_ref": "DESIGN.md §6 C20",
         "note": _common_note + "PARTIAL: clap, process exit codes, tty flushing and the floats of evaluate are not modelled; C20_no_crash covers "
                 "character-type --wsconst values (the G filter needs cluster data; it is covered by the runs).",
